@@ -30,7 +30,8 @@ def gen_file(rng):
     items = [(b"Title", b"x" * rng.choice([0, 1, 50])), (b"Artist", b"yy")][:rng.choice([1, 2])]
     kind = rng.choice(["none", "tag", "tag", "tag-noheader", "tag+v1", "tag+lyrics+v1", "at-start", "at-start-only", "double-header",
                        "size-too-big", "size-small", "size-small", "at-start-size-small", "footer-only-short", "at-start-size-too-big", "at-start-truncated",
-                       "v1-only", "lyrics+v1", "tag+junk", "tiny", "bad-lyrics-size"])
+                       "v1-only", "lyrics+v1", "tag+junk", "tiny", "bad-lyrics-size",
+                       "short-magic", "v1-short-front", "lyrics-size-beyond-start", "lyrics-size-beyond-start", "header-behind-magic"])
     t = ape_tag(items)
     if kind == "none":
         data = audio
@@ -78,6 +79,34 @@ def gen_file(rng):
         if sz >= 32 and rng.random() < 0.6:
             rest[sz - 32:sz - 24] = b"APETAGEX"
         data = bytes(hdr) + bytes(rest)
+    elif kind == "short-magic":
+        # fewer than 32 bytes that start with "APETAGEX" (the fields of a footer behind it, cut): `_seek_back(32)` raises on every
+        # kind of file object - no tag.  (io.BytesIO used to stop the seek(-32, 2) at offset 0 and take the bytes for a footer.)
+        foot = b"APETAGEX" + struct.pack("<4L", 2000, rng.choice([0, 24, 32, 32, 40]), rng.choice([0, 1]), rng.choice([0, 0, HAS_HEADER])) + b"\0" * 8
+        data = foot[:rng.choice([8, 8, 9, 16, 23, 24, 25, 30, 31])]
+    elif kind == "v1-short-front":
+        # 128..159 bytes ending in an ID3v1 block, "APETAGEX" (and the fields of a footer / header) at offset 0: `_seek_back(35)` from
+        # behind "TAG" raises (IOError, `pass`), the check at the start follows.  160: the first length at which the seek succeeds.
+        flags = rng.choice([0, HAS_HEADER, HAS_HEADER | IS_HEADER])
+        front = b"APETAGEX" + struct.pack("<4L", 2000, rng.choice([0, 32, 32, 33, 40, 128]), rng.choice([0, 1]), flags) + b"\0" * 8
+        data = front[:rng.choice([0, 1, 8, 9, 24, 30, 31, 32])] + v1()
+    elif kind == "lyrics-size-beyond-start":
+        # a Lyrics3v2 block whose size field is larger than what stands in front of it: `_seek_back(32 + size + 6)` raises; with
+        # "APETAGEX" at offset 0, where io.BytesIO used to stop
+        front = b"APETAGEX" + struct.pack("<4L", 2000, rng.choice([32, 32, 40, 0]), 0, rng.choice([0, HAS_HEADER])) + b"\0" * 8
+        front = rng.choice([front, front + audio[:40], b"APETAGEX", audio[:40], t, audio[:5] + t])
+        n = rng.choice([0, 7])
+        l3 = bytearray(lyrics3(n))
+        inside = len(front) + len(l3) - 15 - 32          # the largest size field for which the seek stays inside the file
+        size = rng.choice([inside + 1, inside + 1, inside + 2, inside + 100, 999999, max(0, inside), max(0, inside - 1)])
+        l3[-15:-9] = b"%06d" % min(size, 999999)
+        data = front + bytes(l3) + v1()
+    elif kind == "header-behind-magic":
+        # the tag's header at offset 8..23 (or 24, 25) behind an "APETAGEX" at offset 0: `__fix_brokenness` cannot go 24 bytes back
+        # from there (`_seek_back(24)`: IOError, `break`) - the start stays.  From 24 on it is a left-over stub as before.
+        pad = rng.choice([0, 1, 7, 15, 15, 16, 17])
+        tt = t if rng.random() < 0.7 else ape_tag(items, with_header=False)
+        data = b"APETAGEX" + bytes(rng.randrange(1, 256) for _ in range(pad)) + tt + (v1() if rng.random() < 0.3 else b"")
     elif kind == "footer-only-short":
         data = t[-32:][:rng.choice([8, 20, 23, 24, 31])] if rng.random() < 0.5 else audio[:3] + t[-32:]
     elif kind == "v1-only":
@@ -94,14 +123,8 @@ def gen_file(rng):
     return data, kind, len(audio)
 
 
-class BufferedLike(io.BytesIO):
-    """io.BytesIO with the one difference of a file opened by name that matters to `_APEv2Data`: read(n) with n < -1 raises
-    ValueError instead of reading to the end.  (Seeks before the start stay clamped as in io.BytesIO: the model's file object.)"""
-
-    def read(self, n=-1):
-        if n is not None and n < -1:
-            raise ValueError("read length must be non-negative or -1")
-        return io.BytesIO.read(self, n)
+from fobj import BufferedLike      # io.BytesIO with the semantics of a file opened by name: read(n < -1) raises ValueError, truncate
+                                   # beyond the end extends, a seek in front of the file raises OSError(EINVAL)
 
 
 def classify(exc):
@@ -137,15 +160,25 @@ def run(ctx):
             ctx.violation("apefile:%s:hang" % op, "did not finish", case); continue
         out = f.getvalue()
         impl = ("ok v=%s" % hx(out)) if k == "ok" else classify(r)
-        # the same call on an object that refuses read(n < -1) like a file opened by name: no read of `_APEv2Data` has a
-        # negative length (the model's reads take natural numbers), so outcome and bytes are those of io.BytesIO
+        # the same call on an object with the semantics of a file opened by name (fobj.BufferedLike): `_APEv2Data` has no read with
+        # a negative length and makes no seek that ends in front of the file (`_seek_back` asks tell() first), so outcome and bytes
+        # are those of io.BytesIO - for every generated file
         fb = BufferedLike(data)
         kb, rb = timed(lambda: (t.save(fb) if op == "save" else t.delete(fb)), 20)
         implb = "hang" if kb == "hang" else (("ok v=%s" % hx(fb.getvalue())) if kb == "ok" else classify(rb))
-        ctx.hist["apefile:buffered-like:" + ("same" if implb == impl else "differs")] += 1
+        ctx.hist["apefile:as-real-file:" + ("same" if implb == impl else "differs")] += 1
         if implb != impl:
-            ctx.violation("apefile:%s:negative-read-length" % op, "%s on an object with the read() of a file opened by name: %s (%s), on io.BytesIO: %s"
+            ctx.violation("apefile:%s:differs-as-real-file" % op, "%s on an object with the semantics of a file opened by name: %s (%s), on io.BytesIO: %s"
                           % (op, implb[:40], str(rb)[:60] if kb == "exc" else "", impl[:40]), case)
+        # and the load: outcome class and the tags
+        def load_on(cls_):
+            kk, rr = timed(lambda: APEv2(cls_(data)), 20)
+            return "hang" if kk == "hang" else (("ok %r" % sorted((k_, str(v_)) for k_, v_ in rr.items())) if kk == "ok" else classify(rr)), rr
+        la, _ra = load_on(io.BytesIO); lb, rlb = load_on(BufferedLike)
+        ctx.hist["apefile:load:as-real-file:" + ("same" if la == lb else "differs")] += 1
+        if la != lb:
+            ctx.violation("apefile:load:differs-as-real-file", "APEv2(fileobj) on an object with the semantics of a file opened by name: %s (%s), "
+                          "on io.BytesIO: %s" % (lb[:60], str(rlb)[:60] if lb.startswith("err") else "", la[:60]), dict(case, op="load"))
         ctx.case(key=("apefile", op, i, len(data)), nontrivial=(k == "ok" and out != data), modelled=True, sample=case if i == 5 else None)
         ctx.hist["apefile:%s:%s" % (op, impl.split(" v=")[0])] += 1
         ctx.hist["apefile:layout:" + kind] += 1
